@@ -3694,7 +3694,10 @@ def decode_signed_value(
     if version < min_version:
         return None
     if version == 1:
-        assert not isinstance(secret, dict)
+        if isinstance(secret, dict):
+            # The v1 format has no key version, so it cannot be verified
+            # against a key-versioned secret.
+            return None
         return _decode_signed_value_v1(secret, name, value, max_age_days, clock)
     elif version == 2:
         return _decode_signed_value_v2(secret, name, value, max_age_days, clock)
